@@ -1,11 +1,360 @@
 /-
-  C05 — property theorems for the editor choke points (`Ptk.Model.C05`).
+  C05 — property theorems for the choke points of the line editor (`Ptk.Model.C05`).
+
+  The property ("no key sequence can crash the editor or break its state invariants") quantifies
+  over ~600 key bindings; these theorems cover the handful of places through which every handler
+  acts (DESIGN.md §7 C05, PARTIAL):
+
+  (a) the state-writing API of `Buffer`: for EVERY program over it the invariant `Inv` holds
+      (`0 ≤ cursor ≤ len(text)`, selection anchor and multiple cursors inside the text, undo/redo
+      entries well formed), every text change clears the selection and the multiple cursors, undo /
+      redo / insert / delete / history navigation never build an ill-formed `Document` and never
+      index outside the working lines;
+  (b) `_fix_vi_cursor_position` after an ARBITRARY handler;
+  (c) the `ViState.input_mode` setter;
+  (d) `EditReadOnlyBuffer` never leaves `_call_handler`;
+  (e) accept hands exactly the buffer text of that moment to `Application.exit`.
+
+  "No exception escapes" and the invariants of the individual handlers (in particular the writes
+  pinned by `bypass_pin`) are decided by search on the real editor (harness/c05.py), not here.
 -/
-import Ptk.Model.C05
+import Ptk.Props.C05Lemmas
+import Ptk.Gen.C05
 namespace Ptk.C05
 open Ptk.Py
 
-/-- (c) assigning `InputMode.NAVIGATION` clears the pending operator and the digraph state. -/
+/-! ### concrete states used by the non-vacuity examples -/
+
+/-- a non-trivial buffer: three working lines, the cursor inside a two-line text, a selection, two
+    multiple cursors, one undo and one redo entry -/
+def exBuf : Buf :=
+  { lines := ["one".toList, "ab\ncd".toList, "z".toList], idx := 1, cur := 2, sel := some ⟨4, 0⟩,
+    multi := [1, 3], undo := [("ab".toList, 2)], redo := [("abc".toList, 0)], readOnly := false,
+    hsearch := none, enableHS := false }
+
+theorem exBuf_inv : Inv exBuf := by
+  refine ⟨by decide, by decide, ?_, ?_, ?_, ?_⟩
+  · intro s hs
+    have : s = ⟨4, 0⟩ := by simpa [exBuf] using hs.symm
+    subst this; decide
+  · intro p hp
+    have : p = 1 ∨ p = 3 := by simpa [exBuf] using hp
+    rcases this with rfl | rfl <;> decide
+  · intro e he
+    have : e = ("ab".toList, 2) := by simpa [exBuf] using he
+    subst this; decide
+  · intro e he
+    have : e = ("abc".toList, 0) := by simpa [exBuf] using he
+    subst this; decide
+
+/-- a program over the API touching text, selection, undo/redo and history -/
+def exProg : List Op :=
+  [.insertText "xy".toList false true, .startSelection 1, .saveUndo true, .historyBackward 1, .undo,
+   .setText "q".toList, .deleteBefore 5, .redo, .moveCursor (-7), .goToHistory 2, .delete 3]
+
+/-- Vi navigation mode, cursor resting past the last character of the line "ab" (what a handler
+    like `$` or `A`+Escape leaves behind) -/
+def exApp : App :=
+  { buf := { exBuf with sel := none, multi := [] },
+    vi := { mode := .navigation, opPending := false, opArg := none, waitingDigraph := false,
+            digraph1 := none, tempNav := false, recording := none, curRecording := [] },
+    viMode := true, arg := some ['3'] }
+
+/-- insert mode with an operator, a digraph and its first symbol pending -/
+def exVi : Vi :=
+  { mode := .insert, opPending := true, opArg := some 3, waitingDigraph := true, digraph1 := some ['a'],
+    tempNav := false, recording := none, curRecording := [] }
+
+/-! ### (a) the Buffer API -/
+
+/-- One API call keeps the invariant (whatever its arguments), unless it ends with the IndexError of
+    an out-of-range working index.  In particular after a swallowed `EditReadOnlyBuffer` and after an
+    `AssertionError` of an ill-formed `Document` the state is still consistent. -/
+theorem api_step_inv (b : Buf) (op : Op) (h : Inv b) (ho : (step b op).2 ≠ .indexError) :
+    Inv (step b op).1 :=
+  step_inv b op h ho
+
+example : Inv (step exBuf (.setDocument "new text".toList (-3) false)).1 :=
+  api_step_inv exBuf _ exBuf_inv (by decide)
+
+/-- **For every program over the Buffer API** (any finite sequence of calls with any arguments,
+    stopped by the first exception): the invariant holds in the state it leaves behind. -/
+theorem api_inv (b : Buf) (ops : List Op) (h : Inv b) (ho : (run b ops).2 ≠ .indexError) :
+    Inv (run b ops).1 :=
+  run_inv_aux ops b h ho
+
+-- the example program runs to its end, changes text / index / selection / stacks, and the theorem applies
+example : (run exBuf exProg).2 = .ok ∧ (run exBuf exProg).1.text = "z".toList ∧ (run exBuf exProg).1.idx = 2 ∧
+    (run exBuf exProg).1.sel = none ∧ (run exBuf exProg).1.undo.length = 2 := by decide
+example : Inv (run exBuf exProg).1 := api_inv exBuf exProg exBuf_inv (by decide)
+-- a program that a read-only buffer stops with EditReadOnlyBuffer: still covered
+example : (run { exBuf with readOnly := true } [.moveCursor 1, .setText ['q'], .moveCursor 9]).2 = .readOnly := by
+  decide
+
+/-- The statement of the property, spelled out: cursor, selection anchor and every multiple-cursor
+    position are inside the text after every API program. -/
+theorem api_positions_in_text (b : Buf) (ops : List Op) (h : Inv b) (ho : (run b ops).2 ≠ .indexError) :
+    let b' := (run b ops).1
+    b'.cur ≤ b'.text.length ∧
+    (∀ s, b'.sel = some s → 0 ≤ s.anchor ∧ s.anchor ≤ (b'.text.length : Int)) ∧
+    (∀ p ∈ b'.multi, 0 ≤ p ∧ p ≤ (b'.text.length : Int)) := by
+  have hi := api_inv b ops h ho
+  exact ⟨hi.cur, hi.sel, hi.multi⟩
+
+example : (run exBuf exProg).1.cur ≤ (run exBuf exProg).1.text.length :=
+  (api_positions_in_text exBuf exProg exBuf_inv (by decide)).1
+
+/-- **Every text change clears the selection and the multiple cursors** (`_text_changed`): if an API
+    call leaves a different text, there is no selection and no multiple cursor afterwards. -/
+theorem api_text_change_clears (b : Buf) (op : Op) (hi : b.idx < b.lines.length)
+    (ho : (step b op).2 ≠ .indexError) (hne : (step b op).1.text ≠ b.text) :
+    (step b op).1.sel = none ∧ (step b op).1.multi = [] := by
+  rcases step_same_or_cleared b op hi ho with h | h
+  · exact absurd h hne
+  · exact h
+
+-- exBuf has a selection and two multiple cursors; inserting changes the text and clears both
+example : (step exBuf (.insertText ['x'] false true)).1.text ≠ exBuf.text := by decide
+example : (step exBuf (.insertText ['x'] false true)).1.sel = none ∧
+    (step exBuf (.insertText ['x'] false true)).1.multi = [] :=
+  api_text_change_clears exBuf _ (by decide) (by decide) (by decide)
+-- a pure cursor move keeps them (so the conclusion is not trivially true of every call)
+example : (step exBuf (.moveCursor 1)).1.sel = some ⟨4, 0⟩ := by decide
+
+/-- an API call whose `Document` arguments are well formed (`cursor ≤ len(text)`) -/
+def Op.wellFormed : Op → Prop
+  | .setDocument t c _ => c ≤ (t.length : Int)
+  | .reset t c => c ≤ t.length
+  | .cutSelection t c => c ≤ (t.length : Int)
+  | _ => True
+
+/-- **No `AssertionError` from inside the API**: `Document(text, cursor)` is only ever built with
+    `cursor ≤ len(text)` by insert / delete / undo / redo / history navigation (the undo and redo
+    stacks hold well-formed pairs), so only an ill-formed `Document` handed in by the caller asserts. -/
+theorem api_no_assertion (b : Buf) (op : Op) (h : Inv b) (hw : op.wellFormed) :
+    (step b op).2 ≠ .assertion := by
+  cases op with
+  | setCursor v => simp [step]
+  | setText t => rcases setText_outcome b t with h1 | h1 <;> simp [step, h1]
+  | setDocument t c bp => exact (setDocument_outcome b t c bp).2 hw
+  | setWorkingIndex i => rcases setWorkingIndex_outcome_cases b i with h1 | h1 <;> simp [step, h1]
+  | reset t c =>
+    simp only [step, reset]
+    have : ¬ c > t.length := by simp only [Op.wellFormed] at hw; omega
+    rw [if_neg this]; simp
+  | saveUndo cl => simp [step]
+  | undo => exact (undo_inv b h).2.2
+  | redo => exact (redo_inv b h).2.2
+  | startSelection ty => simp [step]
+  | exitSelection => simp [step]
+  | appendLeft it => simp [step]
+  | moveCursor d => simp [step]
+  | insertText d o m => exact (insertText_inv b d o m h).2.2
+  | delete n => rcases (delete_inv b n h).2 with h1 | h1 <;> simp [step, h1]
+  | deleteBefore n => exact (deleteBefore_inv b n h).2.2
+  | historyForward c => simp [step, (historyForward_inv b c h).2]
+  | historyBackward c => simp [step, (historyBackward_inv b c h).2]
+  | goToHistory i => simp [step, (goToHistory_inv b i h).2]
+  | applySearch i c =>
+    simp only [step, applySearchResult]
+    rcases setWorkingIndex_outcome_cases b i with h1 | h1 <;>
+      (revert h1; generalize setWorkingIndex b i = r; obtain ⟨b1, o⟩ := r; intro h1;
+       have h1' : o = _ := h1; subst h1'; simp [andThen])
+  | cutSelection t c =>
+    simp only [step, cutSelection]
+    have h1 := (setDocument_outcome b t c false).2 hw
+    revert h1; generalize setDocument b t c false = r; obtain ⟨b1, o⟩ := r; intro h1
+    cases o <;> simp_all [andThen]
+
+example : (step exBuf .undo).2 ≠ .assertion := api_no_assertion exBuf .undo exBuf_inv trivial
+-- the hypothesis matters: an ill-formed Document handed in by the caller does assert
+example : (step exBuf (.setDocument ['a'] 2 false)).2 = .assertion := by decide
+-- and a stack entry that is not well formed (excluded by `Inv`) makes `undo` assert
+example : (step { exBuf with undo := [(['a'], 5)] } .undo).2 = .assertion := by decide
+
+/-- **An `IndexError` can only come from a caller-supplied working index outside the working
+    lines**: history navigation, `go_to_history`, undo, redo, … never index outside. -/
+theorem api_indexError_only_bad_index (b : Buf) (op : Op) (h : Inv b)
+    (he : (step b op).2 = .indexError) :
+    ∃ i, b.lines.length ≤ i ∧ (op = .setWorkingIndex i ∨ ∃ c, op = .applySearch i c) := by
+  cases op with
+  | setWorkingIndex i =>
+    refine ⟨i, ?_, Or.inl rfl⟩
+    rcases Nat.lt_or_ge i b.lines.length with hi | hi
+    · have := setWorkingIndex_outcome b i hi; simp [step, this] at he
+    · exact hi
+  | applySearch i c =>
+    refine ⟨i, ?_, Or.inr ⟨c, rfl⟩⟩
+    rcases Nat.lt_or_ge i b.lines.length with hi | hi
+    · have h1 := setWorkingIndex_outcome b i hi
+      simp only [step, applySearchResult] at he
+      revert he h1; generalize setWorkingIndex b i = r; obtain ⟨b1, o⟩ := r; intro he h1
+      have h1' : o = .ok := h1
+      subst h1'; simp [andThen] at he
+    · exact hi
+  | setCursor v => simp [step] at he
+  | setText t => rcases setText_outcome b t with h1 | h1 <;> simp [step, h1] at he
+  | setDocument t c bp => exact absurd he (setDocument_outcome b t c bp).1
+  | reset t c => simp only [step, reset] at he; split at he <;> simp at he
+  | saveUndo cl => simp [step] at he
+  | undo => exact absurd he (undo_inv b h).2.1
+  | redo => exact absurd he (redo_inv b h).2.1
+  | startSelection ty => simp [step] at he
+  | exitSelection => simp [step] at he
+  | appendLeft it => simp [step] at he
+  | moveCursor d => simp [step] at he
+  | insertText d o m => exact absurd he (insertText_inv b d o m h).2.1
+  | delete n => rcases (delete_inv b n h).2 with h1 | h1 <;> simp [step, h1] at he
+  | deleteBefore n => exact absurd he (deleteBefore_inv b n h).2.1
+  | historyForward c => simp [step, (historyForward_inv b c h).2] at he
+  | historyBackward c => simp [step, (historyBackward_inv b c h).2] at he
+  | goToHistory i => simp [step, (goToHistory_inv b i h).2] at he
+  | cutSelection t c => exact absurd he (cutSelection_inv b t c h).2
+
+example : (step exBuf (.setWorkingIndex 3)).2 = .indexError := by decide
+example : (step exBuf (.setWorkingIndex 2)).2 = .ok := by decide
+
+/-- a by-passing write whose positions are inside the current text -/
+def Raw.inRange (b : Buf) : Raw → Prop
+  | .selWrite a _ => 0 ≤ a ∧ a ≤ (b.text.length : Int)
+  | .multi ps => ∀ p ∈ ps, 0 ≤ p ∧ p ≤ (b.text.length : Int)
+  | .hsearch _ => True
+
+/-- The writes that by-pass the API (pinned by `bypass_pin`) keep the invariant exactly when the
+    positions they store are inside the text — that obligation is left to the handlers (search). -/
+theorem raw_inv (b : Buf) (r : Raw) (h : Inv b) (hr : r.inRange b) : Inv (stepRaw b r) := by
+  cases r with
+  | selWrite a t =>
+    refine ⟨h.idx, h.cur, ?_, h.multi, h.undo, h.redo⟩
+    intro s hs
+    simp [stepRaw] at hs
+    subst hs
+    exact hr
+  | multi ps => exact ⟨h.idx, h.cur, h.sel, hr, h.undo, h.redo⟩
+  | hsearch v => exact ⟨h.idx, h.cur, h.sel, h.multi, h.undo, h.redo⟩
+
+example : Inv (stepRaw exBuf (.multi [0, 5])) := raw_inv exBuf _ exBuf_inv (by
+  intro p hp
+  have : p = 0 ∨ p = 5 := by simpa using hp
+  rcases this with rfl | rfl <;> decide)
+-- an out-of-range by-passing write does break the invariant: `Inv` is not vacuous
+example : ¬ Inv (stepRaw exBuf (.multi [9])) := by
+  intro h
+  have := h.multi 9 (by simp [stepRaw])
+  revert this; decide
+
+/-! ### (b), (d) the key processor -/
+
+/-- **`_fix_vi_cursor_position`, for an arbitrary handler**: whatever state `a` the handler left
+    (cursor inside the text), after the fix the cursor does not rest past the last character of a
+    non-empty line whenever the Vi navigation filter is on. -/
+theorem fix_vi_cursor_post (a : App) (hc : a.buf.cur ≤ a.buf.text.length)
+    (hn : viNavigationMode (fixViCursor a) = true) : ¬ PastEnd (fixViCursor a).buf :=
+  fixViCursor_not_pastEnd a hc hn
+
+-- in exApp the cursor (2) rests on the line end of "ab": the fix moves it to 1
+example : PastEnd exApp.buf := by unfold PastEnd; decide
+example : (fixViCursor exApp).buf.cur = 1 := by decide
+example : ¬ PastEnd (fixViCursor exApp).buf := fix_vi_cursor_post exApp (by decide) (by decide)
+
+/-- The same through `_call_handler`: if the handler `h` (ANY state transformer) returns normally and
+    leaves the cursor inside the text, then in Vi navigation mode the cursor is not past the last
+    character of a non-empty line when `_call_handler` returns. -/
+theorem call_handler_fix_post (h : App → App × Outcome) (sb : Bool) (a : App)
+    (hok : (h (if sb then { a with arg := none, buf := saveUndo a.buf true } else { a with arg := none })).2 = .ok)
+    (hc : (h (if sb then { a with arg := none, buf := saveUndo a.buf true } else { a with arg := none })).1.buf.cur
+          ≤ (h (if sb then { a with arg := none, buf := saveUndo a.buf true } else { a with arg := none })).1.buf.text.length)
+    (hn : viNavigationMode (callHandler h sb a).1 = true) :
+    ¬ PastEnd (callHandler h sb a).1.buf := by
+  unfold callHandler at *
+  simp only [] at *
+  revert hok hc hn
+  generalize h (if sb = true then { a with arg := none, buf := saveUndo a.buf true } else { a with arg := none }) = r
+  obtain ⟨a2, o⟩ := r
+  intro hok hc hn
+  have hok' : o = .ok := hok
+  subst hok'
+  simp only [] at hc hn ⊢
+  by_cases ht : a.vi.tempNav = true
+  · rw [if_pos ht] at hn ⊢
+    rw [leaveTempNav_buf]
+    exact fixViCursor_not_pastEnd a2 hc (viNav_of_leaveTempNav _ hn)
+  · rw [if_neg ht] at hn ⊢
+    exact fixViCursor_not_pastEnd a2 hc hn
+
+-- a handler that moves to the end of the second line ("cd", cursor 5 = end of text)
+example : ((callHandler (fun a => hrun a [.buf (.setCursor 5)]) true exApp).1.buf.cur,
+           (callHandler (fun a => hrun a [.buf (.setCursor 5)]) true exApp).1.arg) = (4, none) := by decide
+example : ¬ PastEnd (callHandler (fun a => hrun a [.buf (.setCursor 5)]) true exApp).1.buf :=
+  call_handler_fix_post _ true exApp (by decide) (by decide) (by decide)
+
+/-- **(d) `EditReadOnlyBuffer` never leaves `_call_handler`**: whatever the handler does. -/
+theorem readonly_swallowed (h : App → App × Outcome) (sb : Bool) (a : App) :
+    (callHandler h sb a).2 ≠ .readOnly := by
+  unfold callHandler
+  simp only []
+  generalize h _ = r
+  obtain ⟨a2, o⟩ := r
+  cases o <;> simp
+
+/-- … and a handler that raises it is reported as a normal return. -/
+theorem readonly_becomes_ok (h : App → App × Outcome) (sb : Bool) (a : App)
+    (hro : (h (if sb then { a with arg := none, buf := saveUndo a.buf true } else { a with arg := none })).2 = .readOnly) :
+    (callHandler h sb a).2 = .ok := by
+  unfold callHandler
+  simp only []
+  revert hro
+  generalize h _ = r
+  obtain ⟨a2, o⟩ := r
+  intro hro
+  have : o = .readOnly := hro
+  subst this
+  rfl
+
+-- a handler editing a read-only buffer: the program stops with EditReadOnlyBuffer, _call_handler returns normally
+example : (hrun { exApp with buf := { exApp.buf with readOnly := true } } [.buf (.setText ['q'])]).2 = .readOnly := by
+  decide
+example : (callHandler (fun a => hrun a [.buf (.setText ['q'])]) false
+            { exApp with buf := { exApp.buf with readOnly := true } }).2 = .ok := by decide
+
+/-- `_call_handler` with a handler that is a program over the Buffer API and the Vi state (no
+    by-passing write) keeps the buffer invariant — also when the program stops with
+    `EditReadOnlyBuffer` half-way, and with the `save_to_undo_stack` / cursor fix around it. -/
+theorem call_handler_inv (prog : List HOp) (hapi : ∀ op ∈ prog, op.isApi = true) (sb : Bool) (a : App)
+    (hinv : Inv a.buf) (ho : (callHandler (fun a => hrun a prog) sb a).2 ≠ .indexError) :
+    Inv (callHandler (fun a => hrun a prog) sb a).1.buf := by
+  unfold callHandler at *
+  simp only [] at *
+  have h1 : Inv (if sb = true then { a with arg := none, buf := saveUndo a.buf true }
+                 else { a with arg := none }).buf := by
+    split
+    · exact saveUndo_inv _ _ hinv
+    · exact hinv
+  have hr := hrun_inv prog _ hapi h1
+  revert ho hr
+  generalize hrun _ prog = r
+  obtain ⟨a2, o⟩ := r
+  intro ho hr
+  cases o <;> simp only [] at ho hr ⊢
+  · have h3 := fixViCursor_inv a2 (hr (by simp))
+    split
+    · rw [leaveTempNav_buf]; exact h3
+    · exact h3
+  · split
+    · rw [leaveTempNav_buf]; exact hr (by simp)
+    · exact hr (by simp)
+  · exact hr (by simp)
+  · exact absurd rfl ho
+
+example : Inv (callHandler (fun a => hrun a [.buf (.insertText ['x', 'y'] true true), .setMode .insert,
+                                            .buf (.startSelection 2), .buf .undo]) true
+              { exApp with buf := exBuf }).1.buf :=
+  call_handler_inv _ (by decide) true { exApp with buf := exBuf } exBuf_inv (by decide)
+
+/-! ### (c) the Vi state -/
+
+/-- **(c) assigning `InputMode.NAVIGATION` clears the pending operator and the digraph state**
+    (including the half-entered first digraph symbol, fix fb01c78). -/
 theorem nav_clears_pending (v : Vi) :
     (v.setInputMode .navigation).mode = .navigation ∧
     (v.setInputMode .navigation).opPending = false ∧
@@ -13,5 +362,87 @@ theorem nav_clears_pending (v : Vi) :
     (v.setInputMode .navigation).waitingDigraph = false ∧
     (v.setInputMode .navigation).digraph1 = none := by
   simp [Vi.setInputMode]
+
+example : exVi.opPending = true ∧ exVi.waitingDigraph = true ∧ exVi.digraph1 = some ['a'] := by decide
+example : (exVi.setInputMode .navigation).digraph1 = none := (nav_clears_pending exVi).2.2.2.2
+
+/-- `ViState.reset()`: insert mode, nothing pending, not recording. -/
+theorem reset_clears_pending (v : Vi) :
+    v.reset.mode = .insert ∧ v.reset.opPending = false ∧ v.reset.opArg = none ∧
+    v.reset.waitingDigraph = false ∧ v.reset.digraph1 = none ∧ v.reset.recording = none := by
+  simp [Vi.reset, Vi.setInputMode]
+
+example : exVi.reset.opArg = none := (reset_clears_pending exVi).2.2.1
+
+/-- the other modes leave the pending state alone (the setter only clears on NAVIGATION) -/
+theorem other_modes_keep_pending (v : Vi) (m : InputMode) (hm : m ≠ .navigation) :
+    (v.setInputMode m).opPending = v.opPending ∧ (v.setInputMode m).waitingDigraph = v.waitingDigraph ∧
+    (v.setInputMode m).digraph1 = v.digraph1 := by
+  simp [Vi.setInputMode, hm]
+
+example : (exVi.setInputMode .replace).opPending = true := by decide
+
+/-- The Escape handler of vi.py (`_back_to_navigation`: optional cursor-left, `input_mode =
+    NAVIGATION`, `exit_selection()`) as a handler program: it always ends in Vi navigation mode
+    (the filter is on) with no pending operator or digraph and no selection. -/
+theorem back_to_navigation_post (a : App) (d : Int) (hvi : a.viMode = true) :
+    let r := hrun a [.buf (.moveCursor d), .setMode .navigation, .buf .exitSelection]
+    r.2 = .ok ∧ r.1.vi.mode = .navigation ∧ r.1.vi.opPending = false ∧ r.1.vi.opArg = none ∧
+    r.1.vi.waitingDigraph = false ∧ r.1.vi.digraph1 = none ∧ r.1.buf.sel = none ∧
+    viNavigationMode r.1 = true := by
+  simp [hrun, hstep, step, Vi.setInputMode, exitSelection, viNavigationMode, hvi]
+
+example : (hrun { exApp with vi := exVi, buf := exBuf } [.buf (.moveCursor (-1)), .setMode .navigation,
+                                                      .buf .exitSelection]).1.vi.opPending = false :=
+  (back_to_navigation_post { exApp with vi := exVi, buf := exBuf } (-1) rfl).2.2.1
+
+/-! ### (e) accept -/
+
+/-- **(e) the value handed to `Application.exit` is exactly the buffer text of that moment**, and
+    accepting does not touch the buffer (`keep_text = True`). -/
+theorem accept_returns_text (validator : Text → Nat → Option Int) (b b' : Buf) (t : Text)
+    (h : validateAndHandle validator b = (b', some t)) : t = b.text ∧ b' = b := by
+  unfold validateAndHandle at h
+  split at h
+  · simp at h
+  · simp at h; exact ⟨h.2.symm, h.1.symm⟩
+
+example : validateAndHandle (fun _ _ => none) exBuf = (exBuf, some "ab\ncd".toList) := by decide
+
+/-- a failing validator: nothing is returned, the text is untouched, the invariant is kept -/
+theorem reject_keeps_text (validator : Text → Nat → Option Int) (b : Buf) (hinv : Inv b)
+    (h : (validateAndHandle validator b).2 = none) :
+    (validateAndHandle validator b).1.text = b.text ∧ Inv (validateAndHandle validator b).1 := by
+  unfold validateAndHandle at *
+  split
+  · exact ⟨setCursor_text _ _, setCursor_inv _ _ hinv⟩
+  · rename_i hv; rw [hv] at h; simp at h
+
+example : (validateAndHandle (fun _ _ => some 99) exBuf).2 = none ∧
+    (validateAndHandle (fun _ _ => some 99) exBuf).1.cur = 5 := by decide
+
+/-! ### the source pin -/
+
+/-- **AST pin**: the writes to Buffer state outside buffer.py that do not go through the API are
+    exactly these (re-extracted from the current tree by harness/gen_c05.py on every run): the Vi
+    text objects / visual-mode keys writing `selection_state.original_cursor_position` / `.type`, the
+    block-insert handlers writing `multiple_cursor_positions`, and the `SelectionState` constructor.
+    A new by-pass breaks this theorem. -/
+theorem bypass_pin : Gen.C05.bypassSites = [
+  "key_binding/bindings/vi.py::create_text_object_decorator.text_object_decorator.decorator._move_in_selection_mode::selection_state.original_cursor_position::assign",
+  "key_binding/bindings/vi.py::create_text_object_decorator.text_object_decorator.decorator._move_in_selection_mode::selection_state.type::assign",
+  "key_binding/bindings/vi.py::create_text_object_decorator.text_object_decorator.decorator._move_in_selection_mode::selection_state.type::assign",
+  "key_binding/bindings/vi.py::load_vi_bindings._delete_after_multiple_cursors::buff.multiple_cursor_positions::assign",
+  "key_binding/bindings/vi.py::load_vi_bindings._delete_before_multiple_cursors::buff.multiple_cursor_positions::assign",
+  "key_binding/bindings/vi.py::load_vi_bindings._insert_text_multiple_cursors::buff.multiple_cursor_positions::assign",
+  "key_binding/bindings/vi.py::load_vi_bindings._left_multiple::buff.multiple_cursor_positions::assign",
+  "key_binding/bindings/vi.py::load_vi_bindings._right_multiple::buff.multiple_cursor_positions::assign",
+  "key_binding/bindings/vi.py::load_vi_bindings._visual2::selection_state.type::assign",
+  "key_binding/bindings/vi.py::load_vi_bindings._visual_auto_word::buffer.selection_state.type::assign",
+  "key_binding/bindings/vi.py::load_vi_bindings._visual_block2::selection_state.type::assign",
+  "key_binding/bindings/vi.py::load_vi_bindings._visual_line2::selection_state.type::assign",
+  "key_binding/bindings/vi.py::load_vi_bindings.insert_in_block_selection::buff.multiple_cursor_positions::assign",
+  "selection.py::SelectionState.__init__::self.original_cursor_position::assign"] := by
+  rfl
 
 end Ptk.C05
